@@ -9,7 +9,6 @@ props = [json.loads(l) for l in open(os.path.join(VERIF, "properties.jsonl"))]
 
 CHECKS = {}
 NA = {
-    "C18": "contents/size of ranges, modular advance and the spiral walk are arithmetic over run-time values and iteration counts; no finite abstraction in reach is exact (DESIGN.md §7)",
 }
 
 
@@ -47,7 +46,7 @@ m = {
         {"name": "S/D abstract interpreter", "path": "engine/sx.py", "serves_properties": ["C04"], "kind_free_text": "control skeleton by inlining combinators over abstract values; finite atom domains; table comparison"},
         {"name": "W witnesses", "path": "engine/witness.py", "serves_properties": ["C04", "C05"], "kind_free_text": "type-level witnesses compiled with clang -fsyntax-only"},
         {"name": "M move discipline", "path": "engine/moves.py", "serves_properties": ["C05"], "kind_free_text": "use-after-consume and forwarded-storage rules"},
-        {"name": "P polynomial provenance", "path": "engine/poly.py", "serves_properties": ["C14"], "kind_free_text": "normal form (integer polynomial over operand-element atoms) of the provenance terms of branch-free arithmetic code"},
+        {"name": "P polynomial provenance", "path": "engine/poly.py", "serves_properties": ["C14", "C18"], "kind_free_text": "normal form (integer polynomial over operand-element atoms) of the provenance terms of branch-free arithmetic code"},
         {"name": "L invariant-preservation rules", "path": "engine/lrules.py", "serves_properties": ["C09", "C11"], "kind_free_text": "field-write / pairing / ordering rules"},
     ],
     "checks": [CHECKS[k] for k in sorted(CHECKS)],
